@@ -558,6 +558,7 @@ func init() {
 	}, func(e *Env) {
 		e.C05Space()
 		e.markerDiscipline()
+		e.RCommentLines()
 		e.lineBreaksAdvance(e.Sib.Ctx[load.PkgDecorator])
 		e.RDecs(false)
 		// restoreIdent renders spacing first/last too
